@@ -138,14 +138,14 @@ func startWatchdog(h *hx.T) {
 			st := string(buf[:runtime.Stack(buf, true)])
 			where := "?"
 			for _, g := range strings.Split(st, "\n\n") {
-				if !strings.Contains(g, "sync.(*Mutex).Lock") && !strings.Contains(g, "sync.(*RWMutex)") {
+				if !strings.Contains(g, "Mutex") || !strings.Contains(g, "utils/timer.") {
 					continue
 				}
-				if strings.Contains(g, "timer.(*Mgr).Cancel") {
+				if strings.Contains(g, "(*Mgr).Cancel") {
 					where = "cancel"
 					break
 				}
-				if strings.Contains(g, "timer.(*Mgr).doLater") {
+				if strings.Contains(g, "doLater") {
 					where = "expiry"
 				}
 			}
@@ -693,6 +693,32 @@ func (g *gen) caseScenario() {
 	}
 }
 
+// a backlog of expiries on a run service: n timers sharing a deadline, or coming due while the
+// owner loop is stuck — every single one must get its callback (and repeating ones go on)
+func (g *gen) caseRsBacklog(n int, blocked bool) {
+	r := g.h.R
+	g.created = 0
+	g.run("reset rs=1")
+	g.h.Count("scenario.rs-backlog")
+	d := 1 + r.Intn(3)
+	for i := 0; i < n; i++ {
+		dd := d
+		if blocked {
+			dd = 1 + r.Intn(4)
+		}
+		g.mk([]string{"after", "add"}[r.Intn(2)], dd, 0)
+	}
+	if blocked {
+		g.run("block")
+		g.run("adv d=4")
+		g.run("unblock")
+	} else {
+		g.run(fmt.Sprintf("adv d=%d", d))
+	}
+	g.run("adv d=1")
+	g.run(fmt.Sprintf("adv d=%d", d+1))
+}
+
 func (g *gen) staleCancels(rs bool, d int) {
 	r := g.h.R
 	drain := func(n int) {
@@ -840,6 +866,8 @@ func TestRun(t *testing.T) {
 			}
 			g.caseMalformed()
 			g.caseOverflow()
+			g.caseRsBacklog(70, false)
+			g.caseRsBacklog(45, true)
 			n := hx.EnvInt("VERIF_N", 500)
 			for i := 0; i < n; i++ {
 				switch x := h.R.Intn(10); {
@@ -848,6 +876,8 @@ func TestRun(t *testing.T) {
 				case x < 4:
 					h.Count("case.rs")
 					g.caseRandom(true)
+				case x < 5 && h.R.Intn(12) == 0:
+					g.caseRsBacklog(30+h.R.Intn(50), h.R.Intn(2) == 0)
 				case x < 5 && h.R.Intn(3) == 0:
 					h.Count("case.rs-stale-cancels")
 					g.created = 0
